@@ -188,6 +188,25 @@ def run(tier, seed):
                     bad("group:allocator-state", offset=off, second_offset=off2, capacity=nb.capacity, first_fit_offset_before_pickling=o0)
             except Exception as e:  # noqa
                 bad("group:allocator-broken", problem=f"{type(e).__name__}: {e}")
+            # ---- a container pickled together with its own nested dressed parts (they live in the container's memory)
+            buf = bcls(capacity=512)
+            cont = mk(C.PkHybNested, buf)
+            fam = [cont, cont.h, cont.d]
+            wants = [value(g) for g in fam]
+            evals += 1
+            distinct.add(("nested-family", kind, rep))
+            try:
+                c2, h2, d2 = pickle.loads(pickle.dumps(fam))
+                if not (h2._buffer is c2._buffer and d2._buffer is c2._buffer):
+                    bad("family:buffer-not-shared", note="a nested part pickled together with its container no longer lives in the container's buffer")
+                if not all(eq(value(g), w) for g, w in zip((c2, h2, d2), wants)):
+                    bad("family:value")
+                h2.p = -7.25
+                d2.v[0] = 99.0
+                if c2.h.p != -7.25 or c2.d.v[0] != 99.0:
+                    bad("family:write-not-shared", note="a write through the unpickled nested part is not seen through the unpickled container")
+            except Exception as e:  # noqa
+                bad("family:roundtrip", problem=f"{type(e).__name__}: {e}")
     return {
         "evaluations": evals, "distinct_nontrivial": len(distinct),
         "rule": "importable classes (static/dynamic/nested structs, 1-d/2-d/struct arrays, static/dynamic/nested hybrid classes) x both buffer kinds: "
